@@ -50,7 +50,7 @@ def run_script(script, impl, model, workdir, tag, timeout=60, env=None, keep=Fal
     r.model = {}
     r.mism = []; r.ncmp = 0; r.nskip = 0
     if want_model:
-        mrc, mout = C.sh([model, sp], timeout=timeout * 4)
+        mrc, mout = C.sh('ulimit -s unlimited 2>/dev/null; exec %s %s' % (model, sp), timeout=timeout * 4)
         mp = os.path.join(d, 'model.out')
         open(mp, 'w').write(mout)
         r.model = read_log(mp)
